@@ -51,7 +51,7 @@ class SeismicFileConverter(object):
         self.check_input_file_exists()
 
         self.geom = None
-        if all([min_il, max_il, min_xl, max_xl]):
+        if None not in [min_il, max_il, min_xl, max_xl]:
             self.geom = Geometry3d(min_il, max_il, min_xl, max_xl)
         if self.geom is None:
             with SeismicFile.open(self.in_filename, self.filetype) as seismic:
